@@ -210,9 +210,9 @@ LEVELS['C14'] = 'exploration'
 RULES['C14'] = 'every backend write of every writer run is judged online by the write-once monitor against the previous bytes (shadow copy): appends, header link patches, head-table updates, file header at close; distinct = (mode, rewrite volume classes)'
 ASSUME['C14'] = ['the monitor sees exactly the write()/ftruncate() calls of backend_posix.o (link-time interposition); the reader repair path is out of scope of the property']
 
-CHECKS['C17'] = [file_run('mix', 80, 3000, ['C17']), dict(harness='h_crash', variant='plain', args=['--copy-every', '5'], quick=2 * 16, thorough=40 * 16, props=['C17'], name='crash')]
+CHECKS['C17'] = [file_run('mix', 80, 3000, ['C17']), file_run('c13', 100, 3000, ['C17']), dict(harness='h_crash', variant='plain', args=['--copy-every', '5'], quick=2 * 16, thorough=40 * 16, props=['C17'], name='crash')]
 LEVELS['C17'] = 'exploration'
-RULES['C17'] = 'case = mixed program (several signals/types, omission, annotations, UTC, user data) closed, copied with jls_copy; copy decoded as a closed file and its reader dump compared with the source dump; distinct = (signal mix, levels, omission used)'
+RULES['C17'] = 'case = mixed program (several signals/types, omission, annotations, UTC, user data) or definition/user-data program (long strings, payloads of 1 MiB-12 .. 2 MiB around the copy buffer sizes) closed, copied with jls_copy; copy decoded as a closed file and its reader dump compared with the source dump; distinct = (signal mix, levels, omission used)'
 ASSUME['C17'] = ['statistics are compared after rounding to f32 (copy recomputes summaries from the same samples)']
 
 def crash_run(quick_programs, thorough_programs, props, variant='plain', extra=()):
